@@ -1,0 +1,21 @@
+//go:build verif
+
+// Contracts for the deductive verifier in /verif (govc). This file contains no code: with the
+// build tag off it is not part of the package, with it on it adds nothing to the build.
+package types
+
+//@ import sdk "github.com/cosmos/cosmos-sdk/types"
+
+// The proof prefix has its initial value []byte{1} (package-level variables are not reassigned: trust item T4).
+//@ axiom vauth_proof_prefix: len(KeyPrefixProofExternalOwnedAccount) == 1 && cap(KeyPrefixProofExternalOwnedAccount) == 1 && KeyPrefixProofExternalOwnedAccount[0] == 1
+
+// Store key of the proof of an account: 0x01 ++ address bytes. Injective in the address (bcat_split), non-empty,
+// written into a fresh backing array
+// (the shared prefix slice is never appended in place; for an empty address append returns the prefix slice itself).
+//@ ghost func vauthProofKey(a bytes) bytes = bcat(b1(1), a)
+
+//@ func KeyProofExternalOwnedAccountByAddress(accAddr sdk.AccAddress) []byte
+//@   modifies nothing
+//@   ensures[C16.key_layout] len(result) == 1 + len(accAddr) && bsame(bytes(result), vauthProofKey(bytes(accAddr)))
+//@   ensures[C16.key_fresh] len(accAddr) > 0 ==> fresh(base(result))
+//@   panics never
